@@ -30,16 +30,18 @@ def parseOp (s : String) : Option Op :=
   | ['f'] => some .finalise
   | ['l'] => some .pull
   | ['c'] => some .clear
+  | ['x'] => some .reject
   | 'p' :: r => (parseElem (String.ofList r)).map .push
   | _ => none
 
 def parseRes (s : String) : Option Res :=
   if s == "ok" then some .ok else if s == "eof" then some .eof
   else if s == "fin" then some .finalised else if s == "panic" then some .panic
-  else if s == "hang" then some .hang else none
+  else if s == "hang" then some .hang else if s == "rej" then some .rejected else none
 
 def showRes : Res → String
   | .ok => "ok" | .eof => "eof" | .finalised => "fin" | .panic => "panic" | .hang => "hang" | .ioerr => "err"
+  | .rejected => "rej"
 
 /-- one implementation token; an unknown result kind (an I/O error) gives `none` -/
 def parseOut (s : String) : Option Out :=
@@ -104,6 +106,30 @@ def checkHistory (ac : Bool) : List Cycle → Nat → List Out → Option String
 def historyStatement (ac : Bool) (h : List Cycle) (ops : List Op) (outs : List Out) : Option String :=
   if outs.length ≠ ops.length then some "history-did-not-complete" else checkHistory ac h 1 outs
 
+/-- The statement about rejected pushes, on the outputs of a program: every `Push` of a value of
+    another type returned the type-mismatch error, delivered nothing and left `Len`/`Pos` as the
+    previous call had left them (`l`, `p`), and no other call returned that error.  `none` = holds. -/
+def rejectsStatement : List Op → List Out → Nat → Nat → Option String
+  | [], _, _, _ => none
+  | _ :: _, [], _, _ => none
+  | .reject :: ops, o :: outs, l, p =>
+    if o = ⟨.rejected, none, l, p⟩ then rejectsStatement ops outs l p
+    else some "rejected-push-changed-the-sorter-or-did-not-return-its-error"
+  | _ :: ops, o :: outs, _, _ =>
+    if o.res = .rejected then some "type-mismatch-returned-by-an-accepted-call"
+    else rejectsStatement ops outs o.len o.pos
+
+/-- The executable statement for a program with rejected pushes whose accepted calls are the
+    well-formed history `h`: every call returned, the rejected pushes are no-ops
+    (`rejectsStatement`), and the outputs of the accepted calls satisfy `historyStatement`.
+    Without rejected pushes this is `historyStatement`.  Proved sound in
+    `Properties/C11_checker.lean` (`programStatement_sound`). -/
+def programStatement (ac : Bool) (h : List Cycle) (ops : List Op) (outs : List Out) : Option String :=
+  if outs.length ≠ ops.length then some "history-did-not-complete" else
+  match rejectsStatement ops outs 0 0 with
+  | some why => some why
+  | none => historyStatement ac h (dropRejects ops) (dropRejOuts outs)
+
 def stripTag (tok : String) : String :=
   match tok.splitOn "/" with
   | [r, v, l, p] =>
@@ -121,7 +147,8 @@ def handleTokens (inp : List String) (obs : String) : Verdict :=
       let implToks := tokens obs
       let impl := " ".intercalate (implToks.map stripTag)
       let base := [if ac then "autoclear" else "noautoclear", if ty == "s" then "struct" else "int"]
-      match historyOf ac ops with
+      let rejects := ops.any (· == Op.reject)
+      match historyOf ac (dropRejects ops) with
       | some h =>
         let disk := h.map (fun cy => decide (c ≤ cy.pushes.length))
         let memThenDisk := (disk.zip (disk.drop 1)).any (fun p => !p.1 && p.2)
@@ -130,13 +157,13 @@ def handleTokens (inp : List String) (obs : String) : Verdict :=
         let tags := base ++ [s!"cycles{min h.length 6}"]
           ++ (if disk.any id then ["disk"] else []) ++ (if disk.any (!·) then ["mem"] else [])
           ++ (if memThenDisk then ["mem-then-disk"] else []) ++ (if partial_ then ["partial-drain"] else [])
-          ++ (if dup then ["dup-keys"] else [])
+          ++ (if dup then ["dup-keys"] else []) ++ (if rejects then ["rejected-push"] else [])
           ++ (if disk.any id || h.length ≥ 2 then ["nt"] else [])
         if c = 0 then (if m == impl then ok tags else diff m tags) else
         match implToks.mapM parseOut with
         | none => fail "call-returned-unexpected-error-or-died" tags
         | some outs =>
-          match historyStatement ac h ops outs with
+          match programStatement ac h ops outs with
           | some why => fail why tags
           | none => if m == impl then ok tags else diff m tags
       | none =>
